@@ -14,6 +14,7 @@ import (
 	"runtime"
 	"strconv"
 	"sync/atomic"
+	"time"
 )
 
 // ErrKilled is what shim operations return once their thread was killed
@@ -22,8 +23,11 @@ var ErrKilled = errors.New("sched: thread killed (simulated crash)")
 
 var active atomic.Bool
 
-// SyncGo makes Go run its argument inline while no exploration is active.
+// SyncGo makes Go run its argument to completion before it returns while no exploration is active.
 var SyncGo bool
+
+// Detached counts the functions started under SyncGo that did not complete (long-lived workers).
+var Detached atomic.Int64
 var cur *Sched
 
 // Active reports whether an exploration execution is in progress.
@@ -373,8 +377,16 @@ func Canon(label string) string {
 func Go(f func()) {
 	if !active.Load() {
 		if SyncGo {
-			// harness mode for sequential checks: spawned work completes before the spawner continues
-			f()
+			// harness mode for sequential checks: spawned work completes before the spawner continues. Work that
+			// does not complete within two seconds is a long-lived worker (a delivery loop, say): it is left running
+			// and counted, and the caller has to wait for quiescence instead (see Detached).
+			done := make(chan struct{})
+			go func() { defer close(done); f() }()
+			select {
+			case <-done:
+			case <-time.After(2 * time.Second):
+				Detached.Add(1)
+			}
 			return
 		}
 		go f()
